@@ -88,6 +88,16 @@ func c03Alphabet(forLoop bool) (items []func() *Node, reduced int) {
 			add(func() *Node { return &Node{K: "if", E: cd, Body: []*Node{ctl(k, "X")}} })
 		}
 	}
+	// control directives two and three @if levels deep
+	for k := 1; k < 3; k++ {
+		k := k
+		add(func() *Node {
+			return &Node{K: "if", E: conds[1], Body: []*Node{nText("{"), {K: "if", E: eLit(vBool(true)), Body: []*Node{nText("["), ctl(k, ""), nText("]")}}, nText("}")}}
+		})
+		add(func() *Node {
+			return &Node{K: "if", E: eLit(vInt(1)), Body: []*Node{{K: "if", E: conds[0], Body: []*Node{{K: "if", E: eLit(vStr("x")), Body: []*Node{ctl(k, "")}, HasElse: true, Else: []*Node{nText("e")}}}}, nText("}")}}
+		})
+	}
 	// @if / @elseif / @else with every combination of text / @break / @continue
 	c1, c2 := conds[1], conds[2]
 	if forLoop {
